@@ -17,12 +17,17 @@ STRENGTHENED = {
     "cat-asset-bias-high": "C04 caught it at once; C09 only after the bias-attribution step (acceptance explainable only without conservative bias)",
     "cat-deposit-bank-group-unchecked": "missed by single substitutions (the vault mismatch still refuses); caught by the coherent foreign-bank cells",
     "revert-F8": "C07 / C14 missed at first; killed-forever monitor added",
+    "V1-m1": "caught by the direct rig after all three reserve fee buckets were randomised (only protocol fees were before); on chain the venue yield now fills them too",
+    "V2-m1": "missed at first (no Switchboard venue banks on chain, no cell for the valuation accounts of pass-through collateral); caught by the new venue-only-account borrow cells in worlds whose venue banks use the Switchboard setup",
+    "V2-m2": "missed at first; frozen-account cells extended to the pass-through instructions",
+    "V4-m1": "caught by the new receivership-on-paused-bank cells of the C14 matrix",
+    "V4-m2": "caught once every gated instruction (not only deposit) is probed right after the pause expiry",
 }
 def title(d):
     p = os.path.join(d, "README.md")
     if os.path.exists(p):
         t = open(p).readline().strip().lstrip("# ").strip()
-        t = re.sub(r"^C\d\d\s*/\s*[mM]\d\s*[-—]\s*", "", t)
+        t = re.sub(r"^([CV]\d+\s*/\s*)?[mM]\d\s*[-—]\s*", "", t)
         return t.replace("|", "/")
     m = json.load(open(os.path.join(d, "meta.json")))
     return (m.get("what") or m.get("needs") or "").replace("|", "/")
@@ -47,6 +52,10 @@ def row(d):
 print("### 13.1 Changes written by independent sub-agents (confirmed = demo passes on the unchanged tree, fails with the change, suite unchanged)\n")
 print("| id | change | confirmed | caught by (first signature) | note |\n|---|---|---|---|---|")
 for d in sorted(glob.glob(f"{R}/C??-m?")):
+    print("| " + " | ".join(row(d)) + " |")
+print("\n### 13.1b Second round: independent sub-agents told to place the change in the pass-through (Kamino / Solend / Drift) code (V1 = C20, V2 = C08, V3 = C04, V4 = C14)\n")
+print("| id | change | confirmed | caught by (first signature) | note |\n|---|---|---|---|---|")
+for d in sorted(glob.glob(f"{R}/V?-m?")):
     print("| " + " | ".join(row(d)) + " |")
 print("\n### 13.2 Reverted fixes and hand-written catalogue changes\n")
 print("| id | change / what it needs | caught by (first signature) | note |\n|---|---|---|---|")
